@@ -22,7 +22,7 @@ type bounds struct {
 }
 
 func boundsFor(r *rt.Run) bounds {
-	b := bounds{maxGranted: 3, adminMaxGranted: 1, parts: 1, maxDbLen: 4, maxApiLen: 4, nRandom: 300}
+	b := bounds{maxGranted: 3, adminMaxGranted: 1, parts: 4, maxDbLen: 4, maxApiLen: 4, nRandom: 300}
 	if r.Thorough() {
 		b = bounds{maxGranted: 7, adminMaxGranted: 1, parts: 16, maxDbLen: 5, maxApiLen: 5, nRandom: 6000}
 	}
@@ -130,7 +130,7 @@ func Run(r *rt.Run) error {
 						po.nontrivial += len(abs) * (len(privOrder) - 1)
 					}
 				}
-				if len(po.samples) < 2 && !admin && k == 1 && (po.tabs == 40 || po.tabs == 700) {
+				if len(po.samples) < 1 && !admin && k == 1 && po.tabs == 300 {
 					i := (po.tabs * 7) % len(abs)
 					po.samples = append(po.samples, sample{"grants": grantsOf(grantPaths, masks), "resource": reqStr[i], "cleaned": cl[i], "allowed": privNames(dec[i])})
 				}
@@ -181,9 +181,8 @@ func Run(r *rt.Run) error {
 				po.decisions += len(in) + len(dbn)
 				po.nontrivial += len(in) + len(dbn)
 				po.samples = append(po.samples,
-					sample{"database": "/_", "resource": auth.DatabaseResource("/_")},
-					sample{"database": "_/", "resource": auth.DatabaseResource("_/")},
-					sample{"api_path": "/x/../..//x/.", "resource": auth.APIResource("/x/../..//x/.")})
+					sample{"DatabaseResource": rt.M{"/_": auth.DatabaseResource("/_"), "_/": auth.DatabaseResource("_/"), "x_x": auth.DatabaseResource("x_x"), "x/x": auth.DatabaseResource("x/x")},
+						"APIResource": rt.M{"/x/.//xx/": auth.APIResource("/x/.//xx/"), "/x/../../x": auth.APIResource("/x/../../x")}})
 				// seeded random deeper universe
 				randomTables(r, t, b.nRandom)
 				po.decisions += b.nRandom * 40 * len(privOrder)
@@ -204,7 +203,7 @@ func Run(r *rt.Run) error {
 		m.Events += po.decisions
 		m.Distinct += po.nontrivial
 		for _, s := range po.samples {
-			if len(m.Samples) < 6 {
+			if len(m.Samples) < 2 {
 				m.Samples = append(m.Samples, []rt.M{s})
 			}
 		}
